@@ -472,14 +472,45 @@ func judgeC13(c ReqCase) *Fail {
 		}
 		return false
 	}
+	id := make([]int, len(rest))
+	for i := range id {
+		id[i] = i
+	}
 	if !randomOrder {
-		id := make([]int, len(rest))
-		for i := range id {
-			id[i] = i
-		}
 		try(id)
 	} else {
 		permutations(len(rest), func(p []int) bool { return try(p) })
+		// run-level aggregate: where the search order matters (some order does not reproduce the response), is the
+		// response ever anything but the listing-order walk? Kept apart for requests whose criteria set a bias changed
+		// (the method parameters, with the ordering flag and its seed, were rebuilt by the bias listener).
+		if matched && len(rest) >= 3 && len(rest) <= 6 && mg.min >= 1e-9 {
+			sensitive := false
+			permutations(len(rest), func(p []int) bool {
+				var order []SnapAlt
+				if first != nil {
+					order = append(order, *first)
+				}
+				for _, i := range p {
+					order = append(order, rest[i])
+				}
+				acc, left := refSatisfaction(snap.Crit, levels, order, newMargin())
+				if matchSatisfaction(snap, levels, acc, left, r) != "" {
+					sensitive = true
+				}
+				return sensitive
+			})
+			if sensitive {
+				name := "C13agg-order"
+				var declared []string
+				for _, cv := range v.Criteria {
+					declared = append(declared, cv.Id)
+				}
+				if fmt.Sprint(snap.critIds()) != fmt.Sprint(declared) {
+					name = "C13agg-order-after-bias"
+				}
+				aggCollect(name, c.Req, 300)
+			}
+		}
 	}
 	if mg.min < 1e-9 {
 		st.inc("C13:ambiguous")
@@ -532,10 +563,66 @@ func genC13(t *rapid.T) ReqCase {
 	return mkReqCase(genHeuristicReq(t, o))
 }
 
+// c13ListingOrderMatches: does the listing-order walk (current choice first) reproduce the response?
+func c13ListingOrderMatches(req string) (bool, bool) {
+	body := []byte(req)
+	v := viewReq(parseReqM(body))
+	refLevelsReq = v
+	defer func() { refLevelsReq = nil }()
+	snap, r, out, f := finalState(body)
+	if f != nil || !out.OK {
+		return false, false
+	}
+	mg := newMargin()
+	levels, _, endless := refLevelsR(v.MP, false, snap, mg, r)
+	cons, cf := consideredInRequestOrder(v, snap)
+	if endless || cf != nil {
+		return false, false
+	}
+	var order []SnapAlt
+	cc := str(v.MP["currentChoice"])
+	if cc != "" {
+		if a := snap.alt(cc); a != nil {
+			order = append(order, *a)
+		}
+	}
+	for _, a := range cons {
+		if a.Id != cc {
+			order = append(order, a)
+		}
+	}
+	acc, left := refSatisfaction(snap.Crit, levels, order, mg)
+	return matchSatisfaction(snap, levels, acc, left, r) == "", true
+}
+
+func judgeC13AggOrder(c AggCase) *Fail {
+	n, nonIdentity := 0, 0
+	for _, req := range c.Reqs {
+		same, ok := c13ListingOrderMatches(req)
+		if !ok {
+			continue
+		}
+		n++
+		if !same {
+			nonIdentity++
+		}
+	}
+	if n >= 40 && nonIdentity == 0 {
+		return failf("seeded-random-search-order", "%d satisfaction decisions with randomAlternativesOrdering=true whose outcome depends on the search order all equal the listing-order walk", n)
+	}
+	return nil
+}
+
 func init() {
 	register("C12", "C12", 1, genC12, judgeC12)
 	register("C13", "C13", 1, genC13, judgeC13)
+	registerAggregate("C13", "C13agg-order", judgeC13AggOrder)
+	registerAggregate("C13", "C13agg-order-after-bias", judgeC13AggOrder)
 }
 
 func TestC12(t *testing.T) { runRegistered(t, "C12") }
-func TestC13(t *testing.T) { runRegistered(t, "C13") }
+func TestC13(t *testing.T) {
+	runRegistered(t, "C13")
+	runAggregate(t, "C13", "C13agg-order", 40, judgeC13AggOrder)
+	runAggregate(t, "C13", "C13agg-order-after-bias", 40, judgeC13AggOrder)
+}
